@@ -26,6 +26,9 @@ def gen_scenario(r, sid, masked=False):
          "tmPast": False, "to": r.choice([NONE, NONE, 0, 5, 11]), "S": r.choice([NONE, NONE, 2.25])}
     if c["tm"] == NONE and r.random() < 0.15:
         c["tmPast"] = True
+    # the same condition written over several names of a (value, .old) and further entities: every exit path must
+    # release ALL the subscriptions, whatever the order the set of names is walked in (PYTHONHASHSEED varies per worker)
+    c["multi"] = c["st"] == "eq1" and random.Random(r.random()).random() < 0.5
     if not c["check"]:
         c["chk_explicit"] = True
     a0 = r.choice(["0", "1", "x"])
@@ -48,7 +51,10 @@ def gen_scenario(r, sid, masked=False):
 def source(scn):
     c = scn["c"]
     args = []
-    if c["st"] == "eq1":
+    if c["st"] == "eq1" and c.get("multi"):
+        args.append("state_trigger=\"pyscript.a == '1' and pyscript.a.old != 'zz' and pyscript.b != 'zz' and pyscript.b.old != 'zz'"
+                    " and pyscript.c != 'zz' and pyscript.c.x != 'zz' and pyscript.d.old != 'zz' and pyscript.d != 'zz'\"")
+    elif c["st"] == "eq1":
         args.append("state_trigger=\"pyscript.a == '1'\"")
     elif c["st"] == "int":
         args.append("state_trigger=\"int(pyscript.a) == 1\"")
@@ -85,6 +91,8 @@ def run_case(scn, legacy):
 
     async def pre(hass):
         hass.states.async_set("pyscript.a", scn["a0"])
+        for e in "bcd":
+            hass.states.async_set("pyscript." + e, "0", {"x": "p"})
 
     async def body(w):
         from custom_components.pyscript.function import Function
